@@ -199,6 +199,14 @@ var properties = map[string]*propDef{
 			QuickBudget: 25 * time.Second, QuickWorkers: 8, ThoroughBudget: 15 * time.Minute, ThoroughWorkers: 16,
 		}},
 	},
+	"C07": {
+		Level: "exploration",
+		Rule:  "(engine under construction)",
+		Units: []unit{{
+			Name: "core-framer", Module: "core", Package: "./pkg/distribution/framer", Passes: []string{"detrange"}, Engines: []string{"c07"},
+			QuickBudget: 30 * time.Second, QuickWorkers: 8, ThoroughBudget: 12 * time.Minute, ThoroughWorkers: 16,
+		}},
+	},
 	"C08": {
 		Level: "exploration",
 		Rule:  "(engine under construction)",
@@ -213,6 +221,14 @@ var properties = map[string]*propDef{
 		Units: []unit{{
 			Name: "freighter-stream", Module: "freighter/go", Package: "./test", Passes: allPasses, Engines: []string{"c14"},
 			QuickBudget: 25 * time.Second, QuickWorkers: 8, ThoroughBudget: 12 * time.Minute, ThoroughWorkers: 16,
+		}},
+	},
+	"C15": {
+		Level: "exploration",
+		Rule:  "(engine under construction)",
+		Units: []unit{{
+			Name: "core-channel", Module: "core", Package: "./pkg/distribution/channel", Passes: []string{"detrange"}, Engines: []string{"c15"},
+			QuickBudget: 30 * time.Second, QuickWorkers: 8, ThoroughBudget: 12 * time.Minute, ThoroughWorkers: 16,
 		}},
 	},
 	"C16": {
